@@ -1,5 +1,5 @@
 (* Lemmas about Model/Client.v (property C11). *)
-From Coq Require Import List String Ascii ZArith Bool Arith Lia Permutation.
+From Coq Require Import List String Ascii ZArith Bool Arith Lia Permutation DecimalPos DecimalZ DecimalString.
 From AC Require Import Base.Sexp Base.Json Base.Strs Model.Client.
 Import ListNotations.
 Local Open Scope string_scope.
@@ -1283,3 +1283,110 @@ Proof.
   pose proof (plain_convert_dict vars O) as P. destruct (convert_dict_unset_model vars) as [U N].
   rewrite plain_iff, N, U, R in P. discriminate.
 Qed.
+
+(* ================= the multipart map: a bijection between distinct Upload objects and parts ================= *)
+Lemma z_to_string_inj z1 z2 : z_to_string z1 = z_to_string z2 -> z1 = z2.
+Proof.
+  unfold z_to_string. intro H.
+  assert (N : forall z, Z.to_int z <> Decimal.Pos Decimal.Nil /\ Z.to_int z <> Decimal.Neg Decimal.Nil).
+  { intros [|p|p]; simpl; split; try discriminate; intro E; inversion E;
+      eapply DecimalPos.Unsigned.to_uint_nonnil; eauto. }
+  assert (E : Some (Z.to_int z1) = Some (Z.to_int z2)).
+  { rewrite <- (DecimalString.NilZero.isi (Z.to_int z1)) by apply N.
+    rewrite <- (DecimalString.NilZero.isi (Z.to_int z2)) by apply N. rewrite H. reflexivity. }
+  inversion E as [E']. rewrite <- (DecimalZ.of_to z1), <- (DecimalZ.of_to z2), E'. reflexivity.
+Qed.
+
+Lemma nat_to_string_inj a b : nat_to_string a = nat_to_string b -> a = b.
+Proof. unfold nat_to_string. intro H. apply z_to_string_inj in H. lia. Qed.
+
+Fixpoint parts_from (i : nat) (l : list nat) : list (string * nat) :=
+  match l with [] => [] | id :: r => (nat_to_string i, id) :: parts_from (S i) r end.
+Lemma files_parts_eq files : files_parts files = parts_from 0 files.
+Proof. reflexivity. Qed.
+
+Lemma parts_from_spec l : forall i0 name id, In (name, id) (parts_from i0 l) <->
+  exists j, name = nat_to_string (i0 + j) /\ nth_error l j = Some id.
+Proof.
+  induction l as [|x r IH]; intros i0 name id; simpl.
+  - split; [tauto|]. intros [j [_ H]]. destruct j; discriminate.
+  - split.
+    + intros [H|H].
+      * inversion H; subst. exists 0. rewrite Nat.add_0_r. auto.
+      * apply IH in H as [j [E N]]. exists (S j). split; [rewrite E; f_equal; lia | exact N].
+    + intros [j [E N]]. destruct j; simpl in N.
+      * inversion N; subst. left. rewrite Nat.add_0_r. reflexivity.
+      * right. apply IH. exists j. split; [rewrite E; f_equal; lia | exact N].
+Qed.
+
+Lemma NoDup_nth_inj {X} (l : list X) i j x : NoDup l -> nth_error l i = Some x -> nth_error l j = Some x -> i = j.
+Proof.
+  intros ND Hi Hj. apply (proj1 (NoDup_nth_error l) ND); [|congruence].
+  apply nth_error_Some. congruence.
+Qed.
+
+(* parts <-> distinct uploads, one to one; part names are the map's keys, in the same order *)
+Lemma parts_bijection ups files : NoDup files ->
+  (forall id, In id files -> exists name, In (name, id) (files_parts files) /\
+      forall name', In (name', id) (files_parts files) -> name' = name) /\
+  (forall name id id', In (name, id) (files_parts files) -> In (name, id') (files_parts files) -> id = id') /\
+  (forall name id, In (name, id) (files_parts files) -> In id files) /\
+  map fst (files_parts files) = map (fun e => nat_to_string (fst e)) (expected_map ups files 0).
+Proof.
+  intro ND. rewrite files_parts_eq. repeat split.
+  - intros id I. apply In_nth_error in I as [j N]. exists (nat_to_string j). split.
+    + apply parts_from_spec. exists j. auto.
+    + intros name' I'. apply parts_from_spec in I' as [j' [E N']]. simpl in E. subst name'.
+      f_equal. eapply NoDup_nth_inj; eauto.
+  - intros name id id' I I'. apply parts_from_spec in I as [j [E N]]. apply parts_from_spec in I' as [j' [E' N']].
+    simpl in E, E'. subst name. apply nat_to_string_inj in E'. subst j'. congruence.
+  - intros name id I. apply parts_from_spec in I as [j [_ N]]. eapply nth_error_In; eauto.
+  - generalize 0. clear ND. induction files as [|x r IH]; intro k; simpl; [reflexivity|]. f_equal. apply IH.
+Qed.
+
+(* ================= type-directed dumping ================= *)
+Section FannInd.
+  Variable P : fann -> Prop.
+  Hypothesis Hany : P FAny.
+  Hypothesis Hleaf : P FLeaf.
+  Hypothesis Hup : P FUpload.
+  Hypothesis Hopt : forall a, P a -> P (FOpt a).
+  Hypothesis Hlist : forall a, P a -> P (FList a).
+  Hypothesis Hmodel : forall fs, Forall (fun q => P (snd q)) fs -> P (FModel fs).
+  Fixpoint fann_ind2 (a : fann) : P a :=
+    match a with
+    | FAny => Hany | FLeaf => Hleaf | FUpload => Hup
+    | FOpt a' => Hopt a' (fann_ind2 a')
+    | FList a' => Hlist a' (fann_ind2 a')
+    | FModel fs =>
+        Hmodel fs ((fix go (l : list (string * fann)) : Forall (fun q => P (snd q)) l :=
+                      match l with
+                      | [] => Forall_nil _
+                      | x :: r => Forall_cons _ (fann_ind2 (snd x)) (go r)
+                      end) fs)
+    end.
+End FannInd.
+
+Lemma dumpv_model fs : dumpv (VModel fs) = VDict (dump_fields_any fs).
+Proof. reflexivity. Qed.
+
+(* with the Upload class as it is (serializer = identity) dumping by declared types coincides with dumping
+   by runtime types, for every declared type and every value *)
+Lemma dumpt_agrees_gen ser : (forall id, ser id = VUpload id) -> forall a v, dumpt ser a v = dumpv v.
+Proof.
+  intros Hs a. induction a using fann_ind2; intro v; cbn [dumpt]; try reflexivity.
+  - destruct v; try reflexivity. apply Hs.
+  - destruct v as [j| | | | |]; try apply IHa. destruct j; try apply IHa. reflexivity.
+  - destruct v; try reflexivity. cbn [dumpv]. f_equal. apply map_ext. exact IHa.
+  - destruct v as [| | | | |ms]; try reflexivity. rewrite dumpv_model. f_equal.
+    revert ms. induction H as [|[n a] r Ha Hr IH]; intro ms; [reflexivity|].
+    destruct ms as [|[f x] rm]; [reflexivity|]. cbn [dump_fields_any]. simpl in Ha.
+    rewrite Ha, IH. reflexivity.
+Qed.
+
+Lemma dumpt_agrees a v : dumpt ser_upload a v = dumpv v.
+Proof. apply dumpt_agrees_gen. reflexivity. Qed.
+
+(* so an Upload below a field annotated Upload / Optional[...] / List[...] / a nested input is never lost *)
+Lemma dumpt_keeps_uploads a v p : map snd (uploads_at p (dumpt ser_upload a v)) = deep_ids v.
+Proof. rewrite dumpt_agrees. apply ids_dumpv. Qed.
